@@ -1,12 +1,12 @@
 package rules
 
 import (
-	"os"
 	"fmt"
 	"go/ast"
 	"go/constant"
 	"go/token"
 	"go/types"
+	"regexp"
 	"sort"
 	"strings"
 
@@ -32,6 +32,11 @@ func init() {
 			"length of the NEXT_HOP payload (declared 4, the value is whatever address the dialer bound: reviewed exception, see DESIGN.md section 6).",
 		Run: runC16,
 		Mutants: []Mutant{
+			{Name: "notification-reader-rewrapped", File: "internal/bgp/native/messages.go",
+				Old: "func readNotification(r io.Reader) error {\n\tvar code uint16",
+				New: "func readNotification(r io.Reader) error {\n\tr = io.MultiReader(r)\n\tvar code uint16", Expect: "NO-READAHEAD"},
+			{Name: "unknown-capability-refused", File: "internal/bgp/native/messages.go",
+				Old: "\t\tdefault:\n\t\t\t// TODO: only ignore capabilities that we know are fine to\n\t\t\t// ignore.\n\t\t\tif _, err := io.Copy(io.Discard, &lr); err != nil {\n\t\t\t\treturn err\n\t\t\t}", New: "\t\tcase 2, 64, 70:\n\t\t\tif _, err := io.Copy(io.Discard, &lr); err != nil {\n\t\t\t\treturn err\n\t\t\t}\n\t\tdefault:\n\t\t\treturn fmt.Errorf(\"unsupported capability %d\", cap.Code)", Expect: "CAP-TOLERANT"},
 			{Name: "patch-wrong-offset", File: "internal/bgp/native/messages.go",
 				Old: "\tbinary.BigEndian.PutUint16(b.Bytes()[21:23], toWrite)\n\tencodePrefixes(&b, []*net.IPNet{adv.Prefix})", New: "\tbinary.BigEndian.PutUint16(b.Bytes()[20:22], toWrite)\n\tencodePrefixes(&b, []*net.IPNet{adv.Prefix})", Expect: "LAYOUT-1"},
 			{Name: "header-field-added-offsets-stale", File: "internal/bgp/native/messages.go",
@@ -73,6 +78,94 @@ func runC16(p *chk.Prog, r *chk.Report) {
 	c16Read(p, r)
 	c16Validated(p, r)
 	c16Negotiated(p, r)
+	c16Tolerant(p, r)
+	c16ReadAhead(p, r)
+}
+
+// c16ReadAhead: the decoders take from the connection exactly the bytes of the message they decode. The reader they
+// are given is the connection itself, and whatever follows the OPEN (the peer's KEEPALIVE, then UPDATEs) is read by
+// somebody else later: a consumer that reads ahead (a bufio.Reader, io.ReadAll) swallows those bytes.
+func c16ReadAhead(p *chk.Prog, r *chk.Report) {
+	x := r.Rule("NO-READAHEAD", "D ownership (who may consume)", "in package internal/bgp/native every io.Reader / io.ReadCloser parameter is consumed only by exact reads: binary.Read, io.ReadFull, io.ReadAtLeast, io.CopyN, its own Read/Close method, as the R of an io.LimitedReader / io.LimitReader, or handed to another function of the package (checked in turn); it is never reassigned", 5)
+	exact := map[string]bool{"encoding/binary.Read": true, "io.ReadFull": true, "io.ReadAtLeast": true, "io.CopyN": true, "io.LimitReader": true}
+	n := 0
+	for _, f := range p.FuncsIn(natPkg) {
+		if f.Decl == nil || f.Body == nil {
+			continue
+		}
+		for i := 0; ; i++ {
+			pv := f.Param(i)
+			if pv == nil {
+				break
+			}
+			nm, isNamed := types.Unalias(pv.Type()).(*types.Named)
+			if !isNamed || nm.Obj().Pkg() == nil || nm.Obj().Pkg().Path() != "io" || (nm.Obj().Name() != "Reader" && nm.Obj().Name() != "ReadCloser") {
+				continue
+			}
+			n++
+			var stack []ast.Node
+			bad := ""
+			ast.Inspect(f.Body, func(nd ast.Node) bool {
+				if nd == nil {
+					stack = stack[:len(stack)-1]
+					return true
+				}
+				stack = append(stack, nd)
+				id, isId := nd.(*ast.Ident)
+				if !isId || f.ObjOf(id) != types.Object(pv) || len(stack) < 2 {
+					return true
+				}
+				switch par := stack[len(stack)-2].(type) {
+				case *ast.CallExpr:
+					if par.Fun == ast.Expr(id) {
+						return true
+					}
+					fo, _ := f.Callee(par).(*types.Func)
+					switch {
+					case fo == nil:
+						bad = "an indirect call"
+					case exact[fo.FullName()]:
+					case fo.Pkg() != nil && fo.Pkg().Path() == chk.Module+"/"+natPkg:
+					default:
+						bad = fo.FullName()
+					}
+				case *ast.SelectorExpr:
+					if par.X != ast.Expr(id) || (par.Sel.Name != "Read" && par.Sel.Name != "Close") {
+						bad = "." + par.Sel.Name
+					}
+				case *ast.KeyValueExpr:
+					ok := false
+					if len(stack) >= 3 {
+						if cl, isCl := stack[len(stack)-3].(*ast.CompositeLit); isCl {
+							if t := f.Info().TypeOf(cl); t != nil && strings.HasSuffix(t.String(), "io.LimitedReader") {
+								ok = true
+							}
+						}
+					}
+					if !ok {
+						bad = "a composite literal"
+					}
+				case *ast.AssignStmt:
+					for _, l := range par.Lhs {
+						if l == ast.Expr(id) {
+							bad = "a reassignment of the reader"
+						}
+					}
+					for _, rh := range par.Rhs {
+						if rh == ast.Expr(id) {
+							bad = "a copy into another variable"
+						}
+					}
+				case *ast.BinaryExpr: // r == nil
+				default:
+					bad = fmt.Sprintf("%T", par)
+				}
+				return true
+			})
+			x.Check(f.Name()+":"+pv.Name()+":exact-reads-only", f.Pos(), bad == "", "", "the connection's reader is consumed through "+bad+", which is not known to take exactly the bytes it returns (a buffering reader reads ahead: the bytes that follow this message on the connection are lost to the next reader)")
+		}
+	}
+	r.CallSites += n
 }
 
 // c16Negotiated: what the peer's OPEN negotiated is per connection. The session object survives reconnects, so every
@@ -139,7 +232,7 @@ func writesTo(f *chk.Fn, buf types.Object) func(ast.Node) bool {
 			if !ok {
 				return true
 			}
-			if sel, ok := c.Fun.(*ast.SelectorExpr); ok && f.RootObj(sel.X) == buf && strings.HasPrefix(sel.Sel.Name, "Write") {
+			if sel, ok := c.Fun.(*ast.SelectorExpr); ok && f.RootObj(sel.X) == buf && strings.HasPrefix(sel.Sel.Name, "Write") && sel.Sel.Name != "WriteTo" {
 				found = true
 			}
 			for _, a := range c.Args {
@@ -230,6 +323,13 @@ func c16Layout(p *chk.Prog, r *chk.Report) {
 				if vid != nil {
 					if rhs, _ := g.DefOf(vid, s); rhs != nil {
 						ds := g.FactSite(rhs)
+						if cv := f.MatchNew("safeconvert.IntToUInt16(X)", rhs); cv != nil && !okv {
+							// the measure taken into a local first: `v := b.Len(); n, err := IntToUInt16(v)`
+							if m := throughLocals(g, cv["X"]); m != cv["X"] && f.MatchWith("B.Len()", m, chk.H("B", f.IsObj(buf))) != nil {
+								okv = true
+								ds = g.FactSite(m)
+							}
+						}
 						w2 := (&chk.Walk{G: g, From: ds, Hit: isWrite, Stop: func(n ast.Node) bool { return n == s.Top }}).Run()
 						okOrder = !w2.Found
 					}
@@ -250,6 +350,14 @@ func c16Layout(p *chk.Prog, r *chk.Report) {
 					vb, _ = g.DefOf(vid, s)
 				}
 				mb := f.MatchNew("safeconvert.IntToUInt16(B.Len() - L)", vb)
+				if cv := f.MatchNew("safeconvert.IntToUInt16(X)", vb); cv != nil && mb == nil {
+					// the measure taken into a local first: `v := b.Len() - l; n, err := IntToUInt16(v)`
+					if m := throughLocals(g, cv["X"]); m != cv["X"] {
+						if mb = f.MatchNew("B.Len() - L", m); mb != nil {
+							vb = m
+						}
+					}
+				}
 				okv := mb != nil && f.ObjOf(mb["B"]) == buf
 				if okv {
 					lid, _ := ast.Unparen(mb["L"]).(*ast.Ident)
@@ -283,6 +391,89 @@ func c16Layout(p *chk.Prog, r *chk.Report) {
 func isErrReturn(f *chk.Fn, n ast.Node) bool {
 	rs, ok := n.(*ast.ReturnStmt)
 	return ok && len(rs.Results) == 1 && !f.IsNilLit(rs.Results[0])
+}
+
+// errorAlwaysReturned: the error value defined by an expression that `from` accepts is compared with nil, and every
+// branch on which it is not nil ends by returning an error. A branch may also hand the error to the result variable of
+// an expanded helper (`_inlNrK = err; goto L`): the obligation then moves to that variable.
+func errorAlwaysReturned(f *chk.Fn, g *chk.Graph, from func(rhs ast.Expr) bool, depth int) bool {
+	if depth > 3 {
+		return false
+	}
+	es := g.EdgesImplying(chk.GFunc(func(ft chk.Fact) bool {
+		xx, yy, eq, ok := chk.EqParts(ft)
+		if !ok || eq {
+			return false
+		}
+		var other ast.Expr
+		switch {
+		case f.IsNilLit(yy):
+			other = xx
+		case f.IsNilLit(xx):
+			other = yy
+		default:
+			return false
+		}
+		id, isID := ast.Unparen(other).(*ast.Ident)
+		if !isID {
+			return false
+		}
+		rhs, _ := g.DefOf(id, g.FactSite(id))
+		return rhs != nil && from(rhs)
+	}))
+	if len(es) == 0 {
+		return false
+	}
+	handedOn := map[types.Object]bool{}
+	for _, e := range es {
+		if g.BranchAlways(e, func(n ast.Node) bool {
+			if isErrReturn(f, n) {
+				return true
+			}
+			if as, isAs := n.(*ast.AssignStmt); isAs && as.Tok == token.ASSIGN && len(as.Lhs) == 1 && len(as.Rhs) == 1 {
+				if l, isId := as.Lhs[0].(*ast.Ident); isId && inlineResult.MatchString(l.Name) && !f.IsNilLit(as.Rhs[0]) && isErrorTyped(f, as.Rhs[0]) {
+					handedOn[f.ObjOf(l)] = true
+					return true
+				}
+			}
+			return false
+		}).Found {
+			return false
+		}
+	}
+	for o := range handedOn {
+		o := o
+		if !errorAlwaysReturned(f, g, func(rhs ast.Expr) bool {
+			id, isId := ast.Unparen(rhs).(*ast.Ident)
+			return isId && f.ObjOf(id) == o
+		}, depth+1) {
+			return false
+		}
+	}
+	return true
+}
+
+var inlineResult = regexp.MustCompile(`^_inl[0-9]+_[0-9]+r[0-9]+$`)
+
+func isErrorTyped(f *chk.Fn, e ast.Expr) bool {
+	t := f.Info().TypeOf(e)
+	return t != nil && types.Identical(t, types.Universe.Lookup("error").Type())
+}
+
+// throughLocals follows e, a local with one reaching definition, to the expression that defines it (repeatedly).
+func throughLocals(g *chk.Graph, e ast.Expr) ast.Expr {
+	for i := 0; i < 4; i++ {
+		id, ok := ast.Unparen(e).(*ast.Ident)
+		if !ok {
+			return e
+		}
+		rhs, idx := g.DefOf(id, g.FactSite(id))
+		if rhs == nil || idx != 0 {
+			return e
+		}
+		e = rhs
+	}
+	return e
 }
 
 func constInt(f *chk.Fn, e ast.Expr) (int, bool) {
@@ -764,7 +955,7 @@ func writesToParam(f *chk.Fn, buf func(ast.Expr) bool) func(ast.Node) bool {
 			if !ok {
 				return true
 			}
-			if sel, ok := c.Fun.(*ast.SelectorExpr); ok && buf(sel.X) && strings.HasPrefix(sel.Sel.Name, "Write") {
+			if sel, ok := c.Fun.(*ast.SelectorExpr); ok && buf(sel.X) && strings.HasPrefix(sel.Sel.Name, "Write") && sel.Sel.Name != "WriteTo" {
 				found = true
 			}
 			if len(c.Args) > 0 && buf(c.Args[0]) {
@@ -934,35 +1125,7 @@ func c16Narrow(p *chk.Prog, r *chk.Report) {
 			return ok && fn.Pkg() != nil && fn.Pkg().Path() == chk.Module+"/internal/safeconvert"
 		}) {
 			c := s.Node.(*ast.CallExpr)
-			same := func(e ast.Expr) bool { return e == ast.Expr(c) }
-			_ = same
-			es := g.EdgesImplying(chk.GFunc(func(ft chk.Fact) bool {
-				xx, yy, eq, ok := chk.EqParts(ft)
-				if !ok || eq {
-					return false
-				}
-				var other ast.Expr
-				switch {
-				case f.IsNilLit(yy):
-					other = xx
-				case f.IsNilLit(xx):
-					other = yy
-				default:
-					return false
-				}
-				id, isID := ast.Unparen(other).(*ast.Ident)
-				if !isID {
-					return false
-				}
-				rhs, _ := g.DefOf(id, g.FactSite(id))
-				return rhs != nil && ast.Unparen(rhs) == ast.Expr(c)
-			}))
-			ok := len(es) >= 1
-			for _, e := range es {
-				if g.BranchAlways(e, func(n ast.Node) bool { return isErrReturn(f, n) }).Found {
-					ok = false
-				}
-			}
+			ok := errorAlwaysReturned(f, g, func(rhs ast.Expr) bool { return ast.Unparen(rhs) == ast.Expr(c) }, 0)
 			x.Check(name+":checked:"+types.ExprString(c), c.Pos(), ok, "", "the error of a checked conversion is not tested (or the failing branch does not return it)")
 		}
 	}
@@ -1525,11 +1688,6 @@ func c16PrecomputedLengths(x *chk.R, p *chk.Prog, f *chk.Fn, g *chk.Graph, name 
 		writes = append(writes, w)
 	}
 	sort.Slice(writes, func(i, j int) bool { return writes[i].site.Pos() < writes[j].site.Pos() })
-	if os.Getenv("MLB_DEBUG_C16") != "" {
-		for _, w := range writes {
-			fmt.Fprintln(os.Stderr, "C16 write", p.Rel(w.site.Pos()), w.size, w.other)
-		}
-	}
 	x.Check(name+":writes-of-known-size", f.Pos(), okWrites && len(writes) >= 1 && writes[0].site.Top == first.Top, "", "with the lengths computed before the header is written, every write to the message buffer must append a known number of bytes exactly once (a fixed-size value, or another buffer appended whole) and the header must come first")
 	if !okWrites || len(writes) == 0 {
 		return true
@@ -1630,9 +1788,6 @@ func c16PrecomputedLengths(x *chk.R, p *chk.Prog, f *chk.Fn, g *chk.Graph, name 
 			continue
 		}
 		okSec := false
-		if os.Getenv("MLB_DEBUG_C16") != "" {
-			fmt.Fprintln(os.Stderr, "C16 sec", c.field, fieldVal[c.field] != nil, nSrc[c.field], checked(fieldVal[c.field]) != nil)
-		}
 		if v := fieldVal[c.field]; v != nil && nSrc[c.field] == 1 {
 			if e := checked(v); e != nil {
 				if b := f.MatchNew("X.Len()", e); b != nil {
@@ -1665,4 +1820,55 @@ func c16PrecomputedLengths(x *chk.R, p *chk.Prog, f *chk.Fn, g *chk.Graph, name 
 	wc := g.MustPass(writes[len(writes)-1].site, nil, true, func(n ast.Node) bool { return sends(n) || isErrReturn(f, n) })
 	x.Check(name+":patch[Len]:then-sent", f.Pos(), !wc.Found, "", "the assembled buffer is not written to the connection")
 	return true
+}
+
+// c16Tolerant: a well-formed OPEN is never refused for what it announces. readOptions / readCapabilities fail only
+// with the error of a read (a truncated message), for an option type other than "capabilities", or for a capability
+// whose payload was not consumed exactly (leftover bytes); an unknown capability code is skipped. A peer that announces
+// BGP Role, BGPsec or a private-use capability must still be able to establish the session.
+func c16Tolerant(p *chk.Prog, r *chk.Report) {
+	x := r.Rule("CAP-TOLERANT", "B path", "readCapabilities returns an error only (a) handing back the error of a read from the bounded reader, or (b) behind lr.N != 0 (the capability's payload was not consumed exactly): no capability code is refused", 2)
+	f := need(x, p, natPkg, "", "readCapabilities")
+	if f == nil {
+		return
+	}
+	g := f.Graph()
+	isRead := func(e ast.Expr) bool {
+		c, ok := ast.Unparen(e).(*ast.CallExpr)
+		if !ok {
+			return false
+		}
+		fn, _ := f.Callee(c).(*types.Func)
+		if fn == nil {
+			return false
+		}
+		switch fn.FullName() {
+		case "encoding/binary.Read", "io.Copy", "io.ReadFull", "io.CopyN":
+			return true
+		}
+		return false
+	}
+	leftover := chk.GSame(g.GPat(true, "LR.N != 0"), g.GPat(false, "LR.N == 0"), g.GPat(true, "LR.N > 0"))
+	n := 0
+	for _, rt := range g.Returns() {
+		res := retResults(rt)
+		if len(res) != 1 || f.IsNilLit(res[0]) {
+			continue
+		}
+		n++
+		ok := false
+		switch {
+		case isRead(res[0]):
+			ok = true
+		case g.Dominated(rt, leftover):
+			ok = true
+		default:
+			if id, isId := ast.Unparen(res[0]).(*ast.Ident); isId {
+				rhs, _ := g.DefOf(id, g.FactSite(id))
+				ok = rhs != nil && isRead(rhs)
+			}
+		}
+		x.Check("readCapabilities:error-is-read-or-leftover", rt.Pos(), ok, "", "readCapabilities refuses an OPEN for a reason other than a failed read or leftover payload bytes (e.g. an unknown capability code): a peer announcing a capability this implementation does not know can never establish the session")
+	}
+	x.Check("readCapabilities:error-returns-found", f.Pos(), n >= 3, "", "unexpected shape")
 }
